@@ -30,7 +30,7 @@ claim("C05", "stateful property-based testing (proptest histories) against a bal
       "Random histories over both token kinds; every balance, custody and supply compared with a ledger model after every step; successful outbound transfers' announcements compared with the harness's own ABI encoding and Keccak; refused calls must leave the ledger snapshot identical.",
       "closed address pool (supply = sum of balances over it); the configuration of known finding C11 is excluded by construction; all authorisations mocked (C07 studies them)", "DESIGN.md §3 C05")
 claim("C06", "exhaustive entry-point x principal matrix + property-based role-transfer histories, by record-and-substitute authorisation",
-      "All 28 administrative entry points x 7 principal classes are enumerated in every run; proptest adds role-transfer histories. The authorisation trees a call needs are recorded in a twin world and replayed in a fresh one with exactly one principal signing; success iff that principal is the current holder per a role model; refusals must leave the ledger identical.",
+      "All 29 administrative entry points x 7 principal classes are enumerated in every run; proptest adds role-transfer histories. The authorisation trees a call needs are recorded in a twin world and replayed in a fresh one with exactly one principal signing; success iff that principal is the current holder per a role model; refusals must leave the ledger identical.",
       "world construction is deterministic (same addresses in twin and replay worlds); host authorisation framework trusted; accept-all account contracts stand for 'this address signed'", "DESIGN.md §3 C06")
 claim("C11", "stateful property-based testing (proptest histories) with independent id/address derivation and a write-once registry model",
       "Random histories of local deployments, canonical registrations and remote deploy messages with collisions over two ITS instances; ids and addresses compared with own Keccak/XDR/sha256 derivations; registry write-once; post-deployment role, balance and metadata checks and a behavioural inbound-transfer probe on every deployed token.",
